@@ -3,6 +3,7 @@
 import json, subprocess
 props = [json.loads(l) for l in open('/verif/properties.jsonl')]
 T = {
+ "C19": ("exploration", "deterministic simulation: identical concrete histories replayed in three feature builds of the library (child processes), image fingerprint + observation-trace comparison, each build also checked against its own model"),
  "C17": ("fault_enumeration", "deterministic simulation: corrupt_at_rest fault enumeration on directory regions (pattern space of short LFN runs, per-byte sweeps, seeded slot soup), guarded read-only session vs independent slot decoder; run in the alloc and the fixed-buffer build"),
  "C15": ("exploration", "deterministic simulation: name-centred scripts on the engine (create/rename sinks into populated directories, lookups by case variants, alias, near misses) vs tree model and raw image; code-point and length sweeps hosted on the simulator"),
  "C16": ("exploration", "deterministic simulation: colliding directory populations (6-char form, 2-char+hash form, removals) with raw short-name legality / uniqueness / LFN-checksum checks by the independent decoder after every call"),
